@@ -12,6 +12,8 @@ Open Scope N_scope.
 
 Definition sp (n : nat) : str := repeat 32 n.          (* n spaces *)
 Definition nls (n : nat) : str := repeat 10 n.         (* n line feeds *)
+(* blank lines, each with the given number of spaces *)
+Definition bl (ns : list nat) : str := concat (map (fun n => sp n ++ [10]) ns).
 
 (* ---------- characters ---------- *)
 (* printable, not white space, not a line break, not the BOM, not a surrogate *)
@@ -34,12 +36,15 @@ Record pline := PL { pl_first : str; pl_more : list (nat * str) }.
 Inductive dq_item :=
 | DChr (c : N)                       (* the character itself *)
 | DEsc (c : N)                       (* backslash c, a single-character escape *)
-| DHex (k : N) (digits : str).       (* backslash x / u / U followed by 2 / 4 / 8 hex digits *)
+| DHex (k : N) (digits : str)        (* backslash x / u / U followed by 2 / 4 / 8 hex digits *)
+| DBrk (k : nat) (ind : str).        (* escaped line break: backslash, line feed, k blank lines,
+                                        the leading white space of the next line (all dropped,
+                                        the k line feeds are kept) *)
 
 Inductive chomp := Clip | Strip | Keep.
 
 Inductive flow :=
-| FPlain  (l0 : pline) (more : list (nat * nat * nat * pline))
+| FPlain  (l0 : pline) (more : list (nat * list nat * nat * pline))
           (* continuation: trailing spaces of the previous line, blank lines, indent, words *)
 | FSingle (l0 : str) (more : list (str * nat * str * str))
           (* continuation: trailing white space of the previous line (dropped), blank lines,
@@ -56,8 +61,8 @@ Record header := HD {
 Inductive value :=
 | VNone  (tsp : nat) (cm : option str)                               (* key only *)
 | VFlow  (vsp : nat) (f : flow) (tsp : nat) (cm : option str)
-| VBlock (vsp : nat) (folded : bool) (h : header) (lead : nat) (indent : nat)
-         (first : str) (more : list (nat * str)).
+| VBlock (vsp : nat) (folded : bool) (h : header) (lead : list nat) (indent : nat)
+         (first : str) (more : list (list nat * str)).
          (* lead blank lines, then lines at [indent]; each later line preceded by blank lines *)
 
 Inductive key :=
@@ -66,10 +71,10 @@ Inductive key :=
 | KDouble (t : list dq_item).
 
 Inductive item :=
-| IComment (text : str) (trail : nat)                 (* "#text" line, then blank lines *)
-| IKV (k : key) (ksp : nat) (v : value) (trail : nat).
+| IComment (indent : nat) (text : str) (trail : list nat)   (* indented #text line, then blank lines *)
+| IKV (k : key) (ksp : nat) (v : value) (trail : list nat).
 
-Record block := BK { b_lead : nat; b_items : list item }.
+Record block := BK { b_lead : list nat; b_items : list item }.
 
 (* ---------- concrete syntax ---------- *)
 
@@ -84,6 +89,7 @@ Definition print_dq_item (d : dq_item) : str :=
   | DChr c => [c]
   | DEsc c => [92; c]
   | DHex k ds => 92 :: k :: ds
+  | DBrk k ind => [92; 10] ++ nls k ++ ind
   end.
 Definition print_dq (t : list dq_item) : str := flat_map print_dq_item t.
 
@@ -94,7 +100,7 @@ Definition print_flow (f : flow) : str :=
   match f with
   | FPlain l0 more =>
       print_pline l0 ++
-      concat (map (fun '(tsp, k, ind, l) => sp tsp ++ [10] ++ nls k ++ sp ind ++ print_pline l) more)
+      concat (map (fun '(tsp, ks, ind, l) => sp tsp ++ [10] ++ bl ks ++ sp ind ++ print_pline l) more)
   | FSingle l0 more =>
       [39] ++ print_sq l0 ++
       concat (map (fun '(tws, k, ind, t) => tws ++ [10] ++ nls k ++ ind ++ print_sq t) more) ++ [39]
@@ -117,9 +123,9 @@ Definition print_value (v : value) : str :=
   | VNone tsp cm => sp tsp ++ print_comment cm ++ [10]
   | VFlow vsp f tsp cm => sp vsp ++ print_flow f ++ sp tsp ++ print_comment cm ++ [10]
   | VBlock vsp folded h lead indent first more =>
-      sp vsp ++ print_header folded h indent ++ nls lead ++
+      sp vsp ++ print_header folded h indent ++ bl lead ++
       sp indent ++ first ++ [10] ++
-      concat (map (fun '(k, t) => nls k ++ sp indent ++ t ++ [10]) more)
+      concat (map (fun '(ks, t) => bl ks ++ sp indent ++ t ++ [10]) more)
   end.
 
 Definition print_key (k : key) : str :=
@@ -131,12 +137,12 @@ Definition print_key (k : key) : str :=
 
 Definition print_item (it : item) : str :=
   match it with
-  | IComment t trail => 35 :: t ++ [10] ++ nls trail
-  | IKV k ksp v trail => print_key k ++ sp ksp ++ [58] ++ print_value v ++ nls trail
+  | IComment n t trail => sp n ++ 35 :: t ++ [10] ++ bl trail
+  | IKV k ksp v trail => print_key k ++ sp ksp ++ [58] ++ print_value v ++ bl trail
   end.
 
 Definition print_block (b : block) : str :=
-  nls (b_lead b) ++ concat (map print_item (b_items b)).
+  bl (b_lead b) ++ concat (map print_item (b_items b)).
 
 (* ---------- meaning (YAML 1.1, every scalar a string) ---------- *)
 
@@ -178,6 +184,7 @@ Definition dq_meaning_item (d : dq_item) : str :=
   | DChr c => [c]
   | DEsc c => match yaml_escape c with Some r => [r] | None => [] end
   | DHex _ ds => [hexval ds]
+  | DBrk k _ => nls k
   end.
 Definition dq_meaning (t : list dq_item) : str := flat_map dq_meaning_item t.
 
@@ -187,7 +194,7 @@ Definition fold_sep (k : nat) : str := match k with O => [32] | _ => nls k end.
 Definition flow_meaning (f : flow) : str :=
   match f with
   | FPlain l0 more =>
-      print_pline l0 ++ concat (map (fun '(_, k, _, l) => fold_sep k ++ print_pline l) more)
+      print_pline l0 ++ concat (map (fun '(_, ks, _, l) => fold_sep (length ks) ++ print_pline l) more)
   | FSingle l0 more =>
       l0 ++ concat (map (fun '(_, k, _, t) => fold_sep k ++ t) more)
   | FDouble l0 more =>
@@ -203,21 +210,21 @@ Definition block_sep (folded : bool) (prev next : str) (k : nat) : str :=
   then fold_sep k
   else 10 :: nls k.
 
-Fixpoint block_body (folded : bool) (prev : str) (more : list (nat * str)) : str :=
+Fixpoint block_body (folded : bool) (prev : str) (more : list (list nat * str)) : str :=
   match more with
   | [] => []
-  | (k, t) :: more' => block_sep folded prev t k ++ t ++ block_body folded t more'
+  | (ks, t) :: more' => block_sep folded prev t (length ks) ++ t ++ block_body folded t more'
   end.
 
 Definition chomp_tail (c : chomp) (trail : nat) : str :=
   match c with Clip => [10] | Strip => [] | Keep => 10 :: nls trail end.
 
-Definition value_meaning (v : value) (trail : nat) : str :=
+Definition value_meaning (v : value) (trail : list nat) : str :=
   match v with
   | VNone _ _ => []
   | VFlow _ f _ _ => flow_meaning f
   | VBlock _ folded h lead _ first more =>
-      nls lead ++ first ++ block_body folded first more ++ chomp_tail (h_chomp h) trail
+      nls (length lead) ++ first ++ block_body folded first more ++ chomp_tail (h_chomp h) (length trail)
   end.
 
 Definition key_meaning (k : key) : str :=
@@ -229,7 +236,7 @@ Definition key_meaning (k : key) : str :=
 
 Definition meaning_block (b : block) : list (str * str) :=
   flat_map (fun it => match it with
-                      | IComment _ _ => []
+                      | IComment _ _ _ => []
                       | IKV k _ v trail => [(key_meaning k, value_meaning v trail)]
                       end) (b_items b).
 
@@ -266,7 +273,19 @@ Definition wf_dq_item (d : dq_item) : bool :=
       (((k =? 120) && Nat.eqb (length ds) 2) || ((k =? 117) && Nat.eqb (length ds) 4)
        || ((k =? 85) && Nat.eqb (length ds) 8))
       && forallb is_hex ds && (hexval ds <=? 1114111)
+  | DBrk _ ind => forallb wsc ind
   end.
+
+(* what follows an escaped line break is not white space (it would be read as indentation) *)
+Definition dq_is_brk (d : dq_item) : bool := match d with DBrk _ _ => true | _ => false end.
+Definition dq_is_ws (d : dq_item) : bool := match d with DChr c => wsc c | _ => false end.
+Fixpoint dq_brk_ok (t : list dq_item) : bool :=
+  match t with
+  | [] => true
+  | d :: t' =>
+      negb (dq_is_brk d && match t' with d' :: _ => dq_is_ws d' | [] => false end) && dq_brk_ok t'
+  end.
+Definition wf_dq_line (t : list dq_item) : bool := forallb wf_dq_item t && dq_brk_ok t.
 
 Definition comment_ok (sp_before : nat) (cm : option str) : bool :=
   match cm with
@@ -276,10 +295,11 @@ Definition comment_ok (sp_before : nat) (cm : option str) : bool :=
 
 Definition dq_first_ws (t : list dq_item) : bool :=
   match t with DChr c :: _ => wsc c | _ => false end.
+(* the line ends in white space or in an escaped line break: not allowed before a line fold *)
 Fixpoint dq_last_ws (t : list dq_item) : bool :=
   match t with
   | [] => false
-  | [DChr c] => wsc c
+  | [d] => dq_is_ws d || dq_is_brk d
   | _ :: t' => dq_last_ws t'
   end.
 Definition is_nil {A} (l : list A) : bool := match l with [] => true | _ => false end.
@@ -306,34 +326,57 @@ Definition wf_flow (f : flow) : bool :=
   | FSingle l0 more =>
       sq_ok l0 && wf_qmore sq_ok (last_is wsc) (first_is wsc) is_nil true l0 more
   | FDouble l0 more =>
-      forallb wf_dq_item l0 &&
-      wf_qmore (forallb wf_dq_item) dq_last_ws dq_first_ws is_nil true l0 more
+      wf_dq_line l0 &&
+      wf_qmore wf_dq_line dq_last_ws dq_first_ws is_nil true l0 more
   end.
 
 Definition wf_btext (t : str) : bool := negb (is_nil t) && forallb txtc t.
+
+(* blank lines inside and after a block scalar have at most [indent] spaces
+   (with more they would be content) *)
+Definition bl_le (indent : nat) (ns : list nat) : bool := forallb (fun n => Nat.leb n indent) ns.
 
 Definition wf_value (v : value) : bool :=
   match v with
   | VNone tsp cm => comment_ok tsp cm
   | VFlow vsp f tsp cm => negb (Nat.eqb vsp 0) && wf_flow f && comment_ok tsp cm
-  | VBlock vsp _ h _ indent first more =>
+  | VBlock vsp _ h lead indent first more =>
       negb (Nat.eqb vsp 0) && comment_ok (h_sp h) (h_comment h) &&
       negb (Nat.eqb indent 0) &&
       (if h_explicit h then Nat.leb indent 9 else negb (first_is (fun c => c =? 32) first)) &&
-      wf_btext first && forallb (fun '(_, t) => wf_btext t) more
+      wf_btext first && forallb (fun '(ks, t) => bl_le indent ks && wf_btext t) more &&
+      bl_le indent lead
   end.
 
 Definition wf_key (k : key) : bool :=
   match k with
   | KPlain l => wf_pline_start l && negb (str_eqb (pl_first l) [46; 46; 46])
   | KSingle t => sq_ok t
-  | KDouble t => forallb wf_dq_item t
+  | KDouble t => wf_dq_line t && negb (existsb dq_is_brk t)      (* a key is on one line *)
   end.
 
 Definition wf_item (it : item) : bool :=
   match it with
-  | IComment t _ => forallb txtc t
-  | IKV k _ v _ => wf_key k && wf_value v
+  | IComment _ t _ => forallb txtc t
+  | IKV k _ v trail =>
+      wf_key k && wf_value v &&
+      match v with VBlock _ _ _ _ indent _ _ => bl_le indent trail | _ => true end
   end.
 
-Definition wf_block (b : block) : bool := forallb wf_item (b_items b).
+(* a plain value without trailing comment and a block scalar read on into the indentation of the
+   next line: a comment line that follows them directly starts at column 0 *)
+Definition eats_indent (it : item) : bool :=
+  match it with
+  | IKV _ _ (VFlow _ (FPlain _ _) _ None) _ => true
+  | IKV _ _ (VBlock _ _ _ _ _ _ _) _ => true
+  | _ => false
+  end.
+
+Fixpoint wf_adj (items : list item) : bool :=
+  match items with
+  | [] => true
+  | it :: r =>
+      negb (eats_indent it && match r with IComment (S _) _ _ :: _ => true | _ => false end) && wf_adj r
+  end.
+
+Definition wf_block (b : block) : bool := forallb wf_item (b_items b) && wf_adj (b_items b).
